@@ -4,6 +4,9 @@ manifest stays valid while checks are added)."""
 import json, os
 ROOT = os.path.dirname(os.path.abspath(__file__))
 CHECKS = {
+ "C14": dict(level="exploration", technique="timing monitor over (virtual instant, packet) pairs and Start/Stop instants under generated polling schedules (microsecond virtual clock); degenerate-input robustness with step budget and overflow instrumentation",
+     text="Thousands of runs under fixed, jittered, bursty and standing-still polling schedules from 1 us to 10 s periods: packets and StartTransfer are never before the transfer start time or trigger timestamp, carousel cycles never start before the configured delay/interval, paced packet i is never before start + i*target/ceil(L/E), and a lone paced object under drain polling emits each due packet at the first poll after its due time; 14 degenerate inputs x 8 variants and extreme clocks must not panic, hang or starve a plain object. Held on the runs executed.",
+     note="trusted: harness virtual clock; carousel gap judged between cycles of max_transfer_count transfers (flute resets the counter per cycle); lateness under coarse polling is not a violation", ref="DESIGN.md §5 C14"),
  "C13": dict(level="exploration", technique="stream invariants (strict priority, FIFO admission, multiplex bound + round-robin consequence, interleave window + block order) on the independently decoded stream over a complete small grid, late high-priority injection at every packet index and random workloads",
      text="All workloads of a small grid (1-3 queues x 1-3 objects x size patterns x multiplex 0-3 x interleave 1-4 x publish mode), a high-priority object injected at every packet index of a low-priority transmission, and thousands of random workloads (<= 6 queues, <= 20 objects) run on the real sender; four invariants are evaluated on the decoded stream with readiness taken from the operation log. Complete for the grid, sampled beyond.",
      note="trusted: independent decoder, operation log; no start time / pacing / carousel in these workloads", ref="DESIGN.md §5 C13"),
